@@ -365,6 +365,10 @@ def generate(seed, tier='quick', index=0):
         placement = rng.choice(['zero', 'far_below', 'just_below', 'hair_below', 'exact', 'exact', 'hair_above',
                                 'just_above', 'far_above'])
         body = _gen_body(rng, limit, placement, 0, allow_nested)
+        if rng.random() < 0.06:
+            # a limit that has expired before the call starts (0 or 0.0): everything that takes time must time out
+            limit = rng.choice([0, 0.0])
+            body = _gen_body(rng, rng.choice(LIMITS), rng.choice(['far_below', 'just_below', 'exact', 'far_above']), 0, False)
         body.append(_gen_end(rng))
         if rng.random() < 0.25:
             mode = rng.choice(['exc', 'base'])
